@@ -1,4 +1,5 @@
 import Pm.Dev2Login
+import Pm.Dev2Clip
 /-! descriptor / child-process bookkeeping of the connection layer (`device.c:_connect/_disconnect/_reconnect/
     _handle_ready_device`, `device_tcp.c`, `device_pipe.c`) on the mirror `Pm/Dev2.lean`: helper lemmas for
     `Props/C20` (no resource leaks) and `Props/C07` (no device behaviour can crash the daemon). -/
@@ -683,23 +684,27 @@ def hrFinish (c : CS) : CS × Bool × Bool :=
 /-- POLLOUT while CONNECTED: `_handle_write` -/
 def hrWrite (c : CS) : CS × Bool × Bool :=
   if c.dev.toBuf.isEmpty then (c, true, false)
-  else if c.env.writeOk then ({ c with sys := c.sys ++ [.write c.dev.toBuf true], dev := { c.dev with toBuf := [] } }, false, false)
+  else if c.env.writeOk then
+    if c.env.wcap == 0 then ({ c with sys := c.sys ++ [.write [] true] }, true, false)
+    else ({ c with sys := c.sys ++ [.write (c.dev.toBuf.take c.env.wcap) true], dev := { c.dev with toBuf := c.dev.toBuf.drop c.env.wcap } }, false, false)
   else ({ c with sys := c.sys ++ [.write c.dev.toBuf false] }, true, false)
 
 def hrOut (f : Nat) (c : CS) : CS × Bool × Bool :=
   if f &&& 2 != 0 then (if c.dev.conn == 1 then hrFinish c else hrWrite c) else (c, false, false)
 
+/-- `_handle_read` after the capacity half (`clipRead`), and the telnet preprocessing -/
+def hrRd (c : CS) : CS × Bool :=
+  match c.env.read with
+  | some (some bs) =>
+    if bs.isEmpty then ({ c with sys := c.sys ++ [.read 0] }, true)
+    else ({ c with sys := c.sys ++ [.read bs.length],
+                   dev := if c.dev.isPipe then { c.dev with fromBuf := c.dev.fromBuf ++ bs } else telnetFilter c.dev bs }, false)
+  | some none => ({ c with sys := c.sys ++ [.read (-1)] }, true)
+  | none => ({ c with sys := c.sys ++ [.abort "no read answer"], aborted := true }, false)
+
 /-- POLLIN: `_handle_read` and the telnet preprocessing -/
 def hrIn (f : Nat) (c : CS) : CS × Bool :=
-  if f &&& 1 != 0 then
-    match c.env.read with
-    | some (some bs) =>
-      if bs.isEmpty then ({ c with sys := c.sys ++ [.read 0] }, true)
-      else ({ c with sys := c.sys ++ [.read bs.length],
-                     dev := if c.dev.isPipe then { c.dev with fromBuf := c.dev.fromBuf ++ bs } else telnetFilter c.dev bs }, false)
-    | some none => ({ c with sys := c.sys ++ [.read (-1)] }, true)
-    | none => ({ c with sys := c.sys ++ [.abort "no read answer"], aborted := true }, false)
-  else (c, false)
+  if f &&& 1 != 0 then hrRd (clipRead c) else (c, false)
 
 theorem handleReady_eq (c : CS) :
     handleReady c =
@@ -736,7 +741,9 @@ theorem hrWrite_step (c : CS) : Step c (hrWrite c).1 := by
   split
   · exact Step.soft (SameFd.rfl' _) rfl
   · split
-    · exact ⟨rfl, [Sys.write c.dev.toBuf true], rfl, .quiet rfl rfl⟩
+    · split
+      · exact ⟨rfl, [Sys.write [] true], rfl, .quiet rfl rfl⟩
+      · exact ⟨rfl, [Sys.write (c.dev.toBuf.take c.env.wcap) true], rfl, .quiet rfl rfl⟩
     · exact ⟨rfl, [Sys.write c.dev.toBuf false], rfl, .quiet rfl rfl⟩
 
 theorem hrOut_step (f : Nat) (c : CS) (hfd : c.dev.fd.isSome = true) : Step c (hrOut f c).1 := by
@@ -750,22 +757,30 @@ theorem hrOut_step (f : Nat) (c : CS) (hfd : c.dev.fd.isSome = true) : Step c (h
 theorem telnetFilter_sameFd (d : Dev) (bs : Bytes) : SameFd d (telnetFilter d bs) := by
   unfold telnetFilter; exact ⟨rfl, rfl, rfl, rfl⟩
 
-theorem hrIn_step (f : Nat) (c : CS) : Step c (hrIn f c).1 := by
-  unfold hrIn
+theorem hrRd_step (c : CS) : Step c (hrRd c).1 := by
+  unfold hrRd
   split
   · split
-    · split
-      · exact ⟨rfl, [Sys.read 0], rfl, .quiet rfl rfl⟩
-      · refine ⟨?_, [Sys.read _], rfl, .quiet rfl ?_⟩
-        · dsimp only; split
-          · rfl
-          · exact (telnetFilter_sameFd _ _).isPipe
-        · dsimp only; split
-          · rfl
-          · have := telnetFilter_sameFd c.dev ‹_›; simp [lk, this.fd, this.conn, this.cpid]
-    · exact ⟨rfl, [Sys.read (-1)], rfl, .quiet rfl rfl⟩
-    · exact ⟨rfl, [Sys.abort "no read answer"], rfl, .quiet (by decide) rfl⟩
-  · exact Step.soft (SameFd.rfl' _) rfl
+    · exact ⟨rfl, [Sys.read 0], rfl, .quiet rfl rfl⟩
+    · refine ⟨?_, [Sys.read _], rfl, .quiet rfl ?_⟩
+      · dsimp only; split
+        · rfl
+        · exact (telnetFilter_sameFd _ _).isPipe
+      · dsimp only; split
+        · rfl
+        · have := telnetFilter_sameFd c.dev ‹_›; simp [lk, this.fd, this.conn, this.cpid]
+  · exact ⟨rfl, [Sys.read (-1)], rfl, .quiet rfl rfl⟩
+  · exact ⟨rfl, [Sys.abort "no read answer"], rfl, .quiet (by decide) rfl⟩
+
+/-- the capacity half of the read touches neither the descriptor, nor the connection, nor the log -/
+theorem clipRead_step (c : CS) : Step c (clipRead c) :=
+  Step.soft ⟨by simp, by simp, by simp, by simp⟩ (by simp)
+
+theorem hrIn_moves (f : Nat) (c : CS) : Moves c (hrIn f c).1 := by
+  unfold hrIn
+  split
+  · exact .tail (.single (clipRead_step c)) (hrRd_step _)
+  · exact .refl c
 
 /-- `_handle_ready_device`, called (as `dev_post_poll` does) only when a descriptor is held -/
 theorem handleReady_moves (c : CS) (hfd : c.dev.fd.isSome = true) : Moves c (handleReady c).1 := by
@@ -780,13 +795,13 @@ theorem handleReady_moves (c : CS) (hfd : c.dev.fd.isSome = true) : Moves c (han
     · split
       · exact .refl c
       · have h1 := hrOut_step c.env.revents c hfd
-        have h2 := hrIn_step c.env.revents (hrOut c.env.revents c).1
+        have h2 := hrIn_moves c.env.revents (hrOut c.env.revents c).1
         generalize hrOut c.env.revents c = r at *
         split
         · exact .single h1
         · split
           · exact .single h1
-          · exact .tail (.single h1) h2
+          · exact (Moves.single h1).trans h2
 
 /-! ### from moves to everything -/
 
@@ -1117,7 +1132,7 @@ theorem memstr_length (bs : Bytes) : (memstr bs).length ≤ 4 * bs.length := by
     omega
 
 /-- when the regex offsets lie inside the subject (what `regexec` guarantees) the copy has exactly `eo - so` bytes -/
-theorem subOf_length (d : Dev) (i so eo : Int) (subj : Bytes) (hr : d.xmResult = true) (hi : 0 ≤ i)
+theorem subOf_length (d : Dev) (i so eo : Int) (subj : Bytes) (hu : d.xmUsed = true) (hr : d.xmResult = true) (hi : 0 ≤ i)
     (ho : d.xmOffs[i.toNat]? = some (so, eo)) (hs : d.xmStr = some subj) (h0 : 0 ≤ so)
     (h2 : eo.toNat ≤ subj.length) : ∃ s, subOf d i = some s ∧ s.length = (eo - so).toNat := by
   have hne : (so == -1) = false := by
@@ -1127,7 +1142,7 @@ theorem subOf_length (d : Dev) (i so eo : Int) (subj : Bytes) (hr : d.xmResult =
       omega
   have hi' : ¬ i < 0 := by omega
   refine ⟨(subj.drop so.toNat).take (eo - so).toNat, ?_, ?_⟩
-  · simp [subOf, hr, hi', ho, hs, hne]
+  · simp [subOf, hu, hr, hi', ho, hs, hne]
   · simp; omega
 
 /-! ### the functions below `tcp_connect`, where the descriptor invariant is suspended
